@@ -803,8 +803,8 @@ class Model(Object):
                     if obj_coefs:
                         context(
                             partial(
-                                self.solver.objective.set_linear_coefficients,
-                                obj_coefs,
+                                self._restore_objective_coefficients,
+                                {var.name: coef for var, coef in obj_coefs.items()},
                             )
                         )
 
@@ -845,6 +845,21 @@ class Model(Object):
                 associated_groups = self.get_associated_groups(reaction)
                 for group in associated_groups:
                     group.remove_members(reaction)
+
+    def _restore_objective_coefficients(self, coefficients: Dict[str, float]) -> None:
+        """Set coefficients of the current objective by variable name.
+
+        Used to undo the removal of reactions: by then both the objective and the
+        variables may be other objects than at the time of the removal.
+
+        Parameters
+        ----------
+        coefficients: dict
+            Variable names and the objective coefficients to set for them.
+        """
+        self.solver.objective.set_linear_coefficients(
+            {self.variables[name]: coef for name, coef in coefficients.items()}
+        )
 
     def add_groups(self, group_list: Union[str, Group, List[Group]]) -> None:
         """Add groups to the model.
